@@ -4,7 +4,7 @@
    Every assert!/unreachable!/unwrap of the modelled code is a [Panic site] outcome; running
    out of loop or recursion fuel ([OutOfFuel]) is the model's image of a hang. *)
 From Coq Require Import NArith Arith List Bool.
-From OQ3 Require Import gen.Kinds.
+From OQ3 Require Import gen.Kinds gen.Ops.
 Import ListNotations.
 Local Open Scope nat_scope.
 
@@ -78,19 +78,10 @@ Definition current : M N := fun s => Ok (kind_at (pos s)) s.
 Definition nth_tok (n : nat) : M N :=
   fun s => if n <=? 3 then Ok (kind_at (pos s + n)) s else Panic SNthAssert.
 
-(* composite punctuation: (kind, first, second[, third]) -- rust: nth_at / eat *)
-Definition composite2 : list (N * (N * N)) := [
-  (K_MINUSEQ, (K_MINUS, K_EQ)); (K_THIN_ARROW, (K_MINUS, K_R_ANGLE)); (K_COLON2, (K_COLON, K_COLON));
-  (K_NEQ, (K_BANG, K_EQ)); (K_DOT2, (K_DOT, K_DOT)); (K_STAREQ, (K_STAR, K_EQ));
-  (K_SLASHEQ, (K_SLASH, K_EQ)); (K_AMP2, (K_AMP, K_AMP)); (K_AMPEQ, (K_AMP, K_EQ));
-  (K_PERCENTEQ, (K_PERCENT, K_EQ)); (K_CARETEQ, (K_CARET, K_EQ)); (K_PLUSEQ, (K_PLUS, K_EQ));
-  (K_DOUBLE_PLUS, (K_PLUS, K_PLUS)); (K_DOUBLE_STAR, (K_STAR, K_STAR)); (K_SHL, (K_L_ANGLE, K_L_ANGLE));
-  (K_LTEQ, (K_L_ANGLE, K_EQ)); (K_EQ2, (K_EQ, K_EQ)); (K_FAT_ARROW, (K_EQ, K_R_ANGLE));
-  (K_GTEQ, (K_R_ANGLE, K_EQ)); (K_SHR, (K_R_ANGLE, K_R_ANGLE)); (K_PIPEEQ, (K_PIPE, K_EQ));
-  (K_PIPE2, (K_PIPE, K_PIPE)) ].
-Definition composite3 : list (N * (N * N * N)) := [
-  (K_DOT3, (K_DOT, K_DOT, K_DOT)); (K_DOT2EQ, (K_DOT, K_DOT, K_EQ));
-  (K_SHLEQ, (K_L_ANGLE, K_L_ANGLE, K_EQ)); (K_SHREQ, (K_R_ANGLE, K_R_ANGLE, K_EQ)) ].
+(* composite punctuation: (kind, first, second[, third]) -- rust: nth_at; translated from parser.rs
+   on every run (gen/Ops.v) *)
+Definition composite2 : list (N * (N * N)) := gen_composite2.
+Definition composite3 : list (N * (N * N * N)) := gen_composite3.
 Fixpoint assocN {B} (k : N) (l : list (N * B)) : option B :=
   match l with [] => None | (x, v) :: r => if N.eqb k x then Some v else assocN k r end.
 
@@ -106,18 +97,18 @@ Definition nth_at_pure (p n : nat) (kind : N) : bool :=
       | None => N.eqb (kind_at (p + n)) kind
       end
   end.
+Fixpoint memN (k : N) (l : list N) : bool :=
+  match l with [] => false | x :: r => N.eqb k x || memN k r end.
+(* rust: eat -- the number of raw tokens a kind consumes is a second table in the source (translated
+   from parser.rs on every run); that it agrees with the composite table is a proof obligation
+   (Proofs/TablesP.v) *)
 Definition n_raw_of (kind : N) : nat :=
-  match assocN kind composite2 with
-  | Some _ => 2
-  | None => match assocN kind composite3 with Some _ => 3 | None => 1 end
-  end.
+  if memN kind gen_nraw2 then 2 else if memN kind gen_nraw3 then 3 else 1.
 
 Definition at_ (kind : N) : M bool := fun s => Ok (nth_at_pure (pos s) 0 kind) s.
 Definition nth_at (n : nat) (kind : N) : M bool := fun s => Ok (nth_at_pure (pos s) n kind) s.
 
 (* rust: token_set.rs -- a set is the list of its members; contains() is false for kinds >= 128 *)
-Fixpoint memN (k : N) (l : list N) : bool :=
-  match l with [] => false | x :: r => N.eqb k x || memN k r end.
 Definition ts_contains (ts : list N) (k : N) : bool := N.ltb k 128 && memN k ts.
 Definition at_ts (ts : list N) : M bool := fun s => Ok (ts_contains ts (kind_at (pos s))) s.
 
